@@ -364,6 +364,9 @@ class XPathFunction(XPathToken):
             setattr(self, 'evaluate', evaluate)
             setattr(self, 'select', select)
 
+            # The role of the token (multi-role tokens use the label for selecting it)
+            setattr(self, 'base_label', self.label)
+
         self._qname = None
         self.label = 'partial function'
         self.nargs = nargs
@@ -397,6 +400,7 @@ class XPathFunction(XPathToken):
         func = copy(self)
         func.__dict__.pop('evaluate', None)
         func.__dict__.pop('select', None)
+        func.label = func.__dict__.pop('base_label', func.label)
         return func.evaluate(context)
 
     def _partial_select(self, context: ta.ContextType = None) -> Iterator[ta.ItemType]:
